@@ -163,12 +163,24 @@ def canaries(tier="quick"):
     return [_Trace("C12.canary.accel-sign", [x_sort(), Pos("g")], b_acc, [Ob("accelerometer = R^T (+g e3) [false]", "y", "wrong")], decide=CLOSED)]
 
 
+def ingredient_traces():
+    """per-call ingredient of the convergence clause that is a function contract: the covariance propagation of the filter
+    uses the linearisation F of the TRUE (nav-frame, right-invariant) error dynamics, F = [[0, -C_nb], [0, 0]] (lemma
+    L-ERRDYN: with R = exp(xi) R^ and b = b^ + beta, d/dt (R R^^T) = -R [beta]x R^^T, so xi' = -C_nb beta to first order),
+    and the process noise Q it is documented to use.  This is C11's predict call-site trace, re-run under C12 because a
+    wrong frame there leaves every per-call clause of C11's own statement intact while the bias never converges."""
+    from . import c11
+    t = c11.predict_trace()
+    t.id = "C12.ingredient[C11.predict.call-sites]"
+    return [t]
+
+
 def traces(tier="quick"):
-    return sens_traces() + writeback_traces()
+    return sens_traces() + writeback_traces() + ingredient_traces()
 
 
 MIN_OBLIGATIONS = {"quick": 6, "thorough": 6}
 LEVEL = "proof"
 TRUSTED = ["A-GRAPH, A-REAL, own ring engine (see C01)"]
-ASSUMPTIONS = ["ONLY the per-call clauses `sens` and `writeback` are decided; the clause 'the estimate converges / no NaN over the message history' is a whole-trajectory property and is not decided by any contract here",
+ASSUMPTIONS = ["ONLY the per-call clauses `sens`, `writeback` and the linearisation / noise arguments of the covariance propagation (lemma L-ERRDYN, stated) are decided; the clause 'the estimate converges / no NaN over the message history' is a whole-trajectory property and is not decided by any contract here",
                "callee contract of util.sqrt_correct from C10"]
